@@ -823,6 +823,15 @@ class RoundGen:
                  and (rnode is None or (n["unit"] is None) == (rnode["unit"] is None))]
         as_mod = hosts and rng.random() < 0.4 and rnode is not None and \
             not isinstance(rnode["value"], list)
+        array_mod = None
+        if rnode is not None and isinstance(rnode["value"], list) and rng.random() < 0.35:
+            # an existing array (or scalar) node assigned a slice of another array
+            ah = [p for p, n in self.g.nodes.items()
+                  if n["type"] == typ and not n["constant"] and p != ref["query"]
+                  and (n["unit"] is None) == (rnode["unit"] is None)
+                  and (n["dims"] is not None or not isinstance(n["value"], list))]
+            if ah:
+                array_mod = rng.choice(ah)
         sl = None
         dims = None
         if rnode is not None and isinstance(rnode["value"], list) and rnode["value"]:
@@ -853,6 +862,17 @@ class RoundGen:
                 rng.choice(DM.FAMILY.get(self.family_of(rnode["unit"]) or "length"))
             if typ == "int":
                 unit = rnode["unit"]
+        if array_mod is not None and src is None:
+            host = self.g.nodes[array_mod]
+            if host["unit"] is not None and self.g.units.dims(host["unit"]) != \
+                    self.g.units.dims(rnode["unit"]):
+                return
+            if typ == "int" and host["unit"] != rnode["unit"]:
+                return
+            self.emit({"k": "inject", "indent": 0, "name": array_mod, "ref": ref, "unit": None,
+                       "slice": sl})
+            self.chain_valid = False
+            return
         if as_mod:
             path = rng.choice(hosts)
             host = self.g.nodes[path]
